@@ -548,6 +548,9 @@ def _degree(fn, t, env):
         return env[t[1]]
     if t[0] == 'call' and t[1] in ('epsilon', 'min', 'max') and len(t) == 2:
         return 0
+    if t[0] == 'call' and t[1] in ('max', 'min') and len(t) >= 4:
+        ds = set(_degree(fn, u, env) for u in t[2:])
+        return ds.pop() if len(ds) == 1 else None
     if t[0] in ('call',) and t[1] in ('sqrt',) and len(t) == 3:
         d = _degree(fn, t[2], env)
         return d // 2 if isinstance(d, int) and d % 2 == 0 else None
@@ -555,7 +558,7 @@ def _degree(fn, t, env):
         return _degree(fn, t[2], env)
     if t[0] == 'norm' or (t[0] == 'call' and t[1] == 'norm'):
         return _degree(fn, t[-1], env)
-    if t[0] in ('maxCoeff', 'cwiseAbs', 'head', 'tail', 'col', 'real', 'array', 'matrix'):
+    if t[0] in ('maxCoeff', 'cwiseAbs', 'head', 'tail', 'col', 'real', 'array', 'matrix', 'topLeftCorner', 'block', 'topRows', 'leftCols', 'diagonal', 'row', 'minCoeff'):
         return _degree(fn, t[1], env)
     if t[0] in ('()', '[]', 'coeff', 'coeffRef'):
         return _degree(fn, t[1], env)
@@ -734,3 +737,109 @@ def resumed_at_own_dimension(ctx, base_tq, rule='factorization-resumed-at-its-ow
                 raise AnalysisBroken('%s: start index %s of factorize_from not classified' % (fn.qname, txt))
     if n < 4:
         raise AnalysisBroken('%s: only %d factorize_from call sites analysed' % (base_tq, n))
+
+
+def noise_test_reference_global(ctx, rule='noise-test-relative-to-the-whole-operator'):
+    """Lanczos::factorize_from declares the residual "rounding noise" (sets it to zero, restarts with a fresh direction) when its
+    norm is below eps sqrt(n) times a reference of the size of A.  With the three-term recurrence the only quantities of that size
+    within a step are its two coefficients H(i, i-1) and H(i, i) -- and on the null space of a low-rank matrix these ARE rounding
+    noise (A v is noise for v orthogonal to the range): measured against them the noise residual looks healthy, the process
+    continues on noise of noise, its quantities shrink by orders of magnitude per step until their squares underflow (float:
+    1e-22 squared), the basis collapses and H fills with inf / NaN (`TridiagEigen: eigen decomposition failed`).  The reference
+    must therefore not be confined to the current step: a running maximum kept across the step loop, a reduction over a block of
+    H that spans the earlier columns, or a stored scale."""
+    n = 0
+    seen = set()
+    for fn in ctx.F.concrete():
+        if fn.cls != 'Spectra::Lanczos' or fn.name != 'factorize_from' or not fn.cfg or fn.mangled in seen:
+            continue
+        seen.add(fn.mangled)
+        loops = [lp for lp in fn.walk() if lp['k'] == 'ForStmt' and any(x['k'] == 'CXXMemberCallExpr' and x.get('callee') == 'perform_op' for x in fn.walk(lp['body']))]
+        if len(loops) != 1:
+            raise AnalysisBroken('%s: step loop not identified' % fn.qname)
+        lp = loops[0]
+        idx = loop_var(fn, lp)
+        tests = []
+        for i in fn.walk(lp['body']):
+            if i['k'] != 'IfStmt':
+                continue
+            zero = [x for x in fn.walk(i['then']) if x['k'] == 'CXXMemberCallExpr' and x.get('callee') == 'setZero' and 'm_fac_f' in fn.s(x)]
+            c = sym(fn, i['cond'], inline=False)
+            if zero and c[0] in ('<', '<=') and c[1] == ('F', 'm_beta'):
+                tests.append((i, c))
+        if not tests:
+            raise AnalysisBroken('%s: no noise test (residual set to zero under a comparison of its norm) in the step loop' % fn.qname)
+        for i, c in tests:
+            n += 1
+            ref = c[2]
+            leaves = []
+
+            def walk(t):
+                if isinstance(t, tuple):
+                    if t[0] in ('L', 'F', 'P'):
+                        leaves.append(t)
+                    elif t[0] in ('()', '[]', 'coeff') and t[1] == ('F', 'm_fac_H'):
+                        leaves.append(t)
+                    else:
+                        for u in t[1:]:
+                            walk(u)
+            walk(ref)
+            global_ref, local_ref = [], []
+            for lf in leaves:
+                if lf[0] == 'L':
+                    nm = lf[1]
+                    decl_outside = [x for x in fn.walk() if x['k'] == 'DeclStmt' and not fn.within(x, lp['body']) and any(fn.locals[d['var']]['name'] == nm for d in x['decls'] if 'var' in d)]
+                    asg = [x for x in fn.walk(lp['body']) if x['k'] == 'BinaryOperator' and x.get('op') == '=' and sym(fn, x['c'][0], inline=False) == lf]
+                    running = bool(decl_outside) and bool(asg) and all(
+                        (lambda r: r[0] == 'call' and r[1] == 'max' and lf in r[2:])(sym(fn, a['c'][1], inline=False)) for a in asg)
+                    if running:
+                        global_ref.append('%s (running maximum over the steps)' % nm)
+                    elif decl_outside and not asg:
+                        dg = None
+                        inits = [d['init'] for x in decl_outside for d in x['decls'] if 'init' in d and fn.locals[d['var']]['name'] == nm]
+                        t0 = show(sym(fn, inits[0], inline=False)) if inits else ''
+                        if 'm_fac_H' in t0 and any(k in t0 for k in ('maxCoeff', 'norm')):
+                            global_ref.append('%s = %s' % (nm, t0[:50]))
+                elif lf[0] == 'F' and lf[1] not in ('m_beta', 'm_eps', 'm_near_0', 'm_n', 'm_m', 'm_k', 'm_fac_H', 'm_fac_f', 'm_fac_V'):
+                    global_ref.append('stored scale %s' % lf[1])
+                elif lf[0] in ('()', '[]', 'coeff'):
+                    if idx is not None and any(('L', idx) in atoms_of(u) for u in lf[2:]):
+                        local_ref.append(show(lf))
+            def reductions(t):
+                if isinstance(t, tuple):
+                    if t[0] in ('maxCoeff', 'norm', 'lpNorm', 'sum') or (t[0] == 'call' and t[1] in ('maxCoeff', 'norm')):
+                        yield t
+                    for u in t[1:]:
+                        for r_ in reductions(u):
+                            yield r_
+            for r_ in reductions(ref):
+                txt = show(r_)
+                if 'm_fac_H' in txt and any(k in txt for k in ('topLeftCorner(', 'block(', 'topRows(', 'leftCols(')):
+                    global_ref.append('a reduction over a block of H: %s' % txt[:60])
+            ok = bool(global_ref)
+            ctx.check(ok, rule, 'Lanczos::factorize_from', fn.qname,
+                      '`%s`: the reference is %s' % (fn.s(i['cond'])[:50], '; '.join(global_ref)) if ok else
+                      '`%s` measures the residual only against %s, the coefficients of the current step: on the null space of a low-rank matrix they are rounding noise themselves, '
+                      'the noise residual passes, the process continues on noise until its squares underflow and H fills with inf / NaN' % (fn.s(i['cond'])[:70], ', '.join(local_ref) or 'quantities of the current step'))
+    if n < 1:
+        raise AnalysisBroken('no noise test analysed in Lanczos::factorize_from')
+
+
+def loop_var(fn, lp):
+    for x in (fn.walk(lp['init']) if lp.get('init', -1) not in (None, -1) else []):
+        if x['k'] == 'DeclStmt':
+            for d in x['decls']:
+                if 'var' in d:
+                    return fn.locals[d['var']]['name']
+    return None
+
+
+def atoms_of(t):
+    out = set()
+    if isinstance(t, tuple):
+        if t[0] in ('L', 'F', 'P'):
+            out.add(t)
+        else:
+            for u in t[1:]:
+                out |= atoms_of(u)
+    return out
